@@ -4,6 +4,7 @@ From SV Require Import Lib.Base Gen.WireFields Model.WireBase Proofs.WireBasePro
 From SV Require Import Model.WireIgmp Proofs.WireIgmpProofs.
 From SV Require Import Model.WireIpv6Frag Proofs.WireIpv6FragProofs.
 From SV Require Import Model.WireIpv6Ext Proofs.WireIpv6ExtProofs.
+From SV Require Import Model.WireIcmpv6Hdr Proofs.WireIcmpv6HdrProofs Model.WireMld Proofs.WireMldProofs.
 From SV Require Import Props.C06b.
 
 Check (C06_igmp_emit_no_panic : forall (sum_fill : list Z -> Z) r b,
@@ -71,3 +72,53 @@ Check (C06_v6ext_reparse : forall bs r,
   v6ext_wf r = true /\
   forall b, blen b = v6ext_total_len r ->
     exists bs', v6ext_emit_full r b = Ok bs' /\ v6ext_parse bs' = Ok r).
+
+Check (C06_mldrec_emit_no_panic : forall r b,
+  mldrec_wf r = true -> blen b = mldrec_buffer_len r -> mldrec_emit r b <> Panic).
+
+Check (C06_mldrec_emit_ignores_old_bytes : forall r b1 b2,
+  mldrec_wf r = true -> blen b1 = mldrec_buffer_len r -> blen b2 = mldrec_buffer_len r ->
+  mldrec_emit r b1 = mldrec_emit r b2).
+
+Check (C06_mldrec_emit_frame : forall r h t,
+  blen h = mldrec_buffer_len r -> mldrec_emit r (h ++ t) = omap (fun x => x ++ t) (mldrec_emit r h)).
+
+Check (C06_mldrec_roundtrip : forall r b,
+  mldrec_wf r = true -> blen b = mldrec_buffer_len r ->
+  exists bs, mldrec_emit r b = Ok bs /\ blen bs = mldrec_buffer_len r /\
+             mldrec_parse (bs ++ mldrec_payload r) = Ok r).
+
+Check (C06_mldrec_reparse : forall bs r,
+  bytes_ok bs = true -> mldrec_check_len bs = Ok tt ->
+  mldrec_parse bs = Ok r -> ipv6_addr_is_multicast (mldrec_addr r) = true ->
+  mldrec_wf r = true /\
+  forall b, blen b = mldrec_buffer_len r ->
+    exists bs', mldrec_emit r b = Ok bs' /\ mldrec_parse (bs' ++ mldrec_payload r) = Ok r).
+
+Check (C06_mld_emit_spec : forall r b,
+  mld_wf r = true -> blen b = mld_buffer_len r ->
+  mld_emit r b = Ok (mld_bytes_ck r (nth 2 b 0) (nth 3 b 0))).
+
+Check (C06_mld_emit_no_panic : forall (sum_fill : list Z -> Z) tx r b,
+  mld_wf r = true -> blen b = mld_buffer_len r ->
+  mld_emit r b <> Panic /\ mld_icmp_emit sum_fill tx r b <> Panic).
+
+Check (C06_mld_emit_ignores_old_bytes : forall (sum_fill : list Z -> Z) tx r b1 b2,
+  mld_wf r = true -> blen b1 = mld_buffer_len r -> blen b2 = mld_buffer_len r ->
+  mld_icmp_emit sum_fill tx r b1 = mld_icmp_emit sum_fill tx r b2).
+
+Check (C06_mld_roundtrip : forall (sum_fill : list Z -> Z) tx r b,
+  mld_wf r = true -> blen b = mld_buffer_len r ->
+  exists bs, mld_icmp_emit sum_fill tx r b = Ok bs /\ blen bs = mld_buffer_len r /\
+             mld_parse bs = Ok (mld_canon r)).
+
+Check (C06_mld_icmp_roundtrip : forall sum_ok sum_fill tx rx r b,
+  icmp6h_cksum_link sum_ok sum_fill -> (rx = true -> tx = true) ->
+  mld_wf r = true -> blen b = mld_buffer_len r ->
+  exists bs, mld_icmp_emit sum_fill tx r b = Ok bs /\ mld_icmp_parse sum_ok rx bs = Ok (mld_canon r)).
+
+Check (C06_mld_reparse : forall (sum_fill : list Z -> Z) tx bs r,
+  bytes_ok bs = true -> mld_parse bs = Ok r ->
+  mld_wf r = true /\
+  forall b, blen b = mld_buffer_len r ->
+    exists bs', mld_icmp_emit sum_fill tx r b = Ok bs' /\ mld_parse bs' = Ok r).
